@@ -105,6 +105,12 @@ inductive Ev
   | recovered (f : File)
 deriving Repr, DecidableEq
 
+/-- the file whose task an event belongs to -/
+def Ev.file : Ev → File
+  | .spawn f | .acquire f | .acqfail f | .resolved f _ | .blocked f _ | .selfimport f | .dep f _
+  | .cycle f _ | .release f | .waited f _ | .unblocked f | .reacquire f | .reacqfail f
+  | .complete f | .fail f | .recovered f => f
+
 def init (w : World) : St := { sem := w.par }
 
 def isFinished (s : St) (f : File) : Bool :=
